@@ -64,15 +64,31 @@ def _lib_equal(a, b) -> bool:
         return False
 
 
+_ATOM = __import__("re").compile(r'(?:([a-z_.]+)\s*(==|!=|<=|>=|<|>|~=|not in|in)\s*"([^"]*)"|"([^"]*)"\s*(==|!=|<=|>=|<|>|~=|not in|in)\s*([a-z_.]+))')
+_REFLECT = {"<": ">", "<=": ">=", ">": "<", ">=": "<=", "==": "==", "!=": "!=", "~=": "~="}
+
+
+def _canon_text(text: str):
+    """(skeleton, sorted atoms) of a rendered marker, with comparison atoms written variable-first.
+    Two renderings with equal canon differ only in the operand order of comparison atoms and in
+    the order in which atoms are listed - what the library's own == ignores (F17)."""
+    atoms = []
+
+    def repl(m):
+        if m.group(1):
+            atoms.append((m.group(1), m.group(2), m.group(3)))
+        elif m.group(5) in _REFLECT:
+            atoms.append((m.group(6), _REFLECT[m.group(5)], m.group(4)))
+        else:  # literal-on-the-left in / not in: orientation is meaning, keep it
+            atoms.append(("\"" + m.group(4) + "\"", m.group(5), m.group(6)))
+        return "A"
+
+    skeleton = _ATOM.sub(repl, text)
+    return skeleton, tuple(sorted(atoms))
+
+
 def _text_equal(out, warm_shape, op, envs) -> bool:
-    """Ask a fresh interpreter whether the warm text parses to something == the fresh result."""
-    req = {"ops": [op], "given_text": warm_shape[1], "envs": []}
-    try:
-        p = subprocess.run([sys.executable, "-m", "vf.coldprobe", json.dumps(req)], cwd=VERIF, capture_output=True,
-                           text=True, timeout=60)
-        return bool(json.loads(p.stdout)[0].get("equal_to_given"))
-    except Exception:  # noqa: BLE001
-        return False
+    return _canon_text(out.get("text", "")) == _canon_text(warm_shape[1])
 
 
 def setup(ctx):
@@ -328,7 +344,7 @@ def _run_history(ctx, atoms, ops, fresh_budget):
                       {"operation": op, "fresh": list(got[:2]), "in_history": list(wlast[:2]), "semantic": bool(semw),
                        "group": "fresh-vs-warm/" + ("meaning" if semw else "text")},
                       live={"semantic": bool(semw), "same_type": got[0] == wlast[0],
-                            "lib_equal": bool(out.get("equal_to_given")) if wlast[1] == (cold[json.dumps(op)][1]) else _text_equal(out, wlast, op, envs)})
+                            "lib_equal": _text_equal(out, wlast, op, envs)})
         exp = cold[json.dumps(op)]
         ctx.evaluations += 1
         if got != exp and not MM.UNCLEARABLE:
@@ -337,7 +353,7 @@ def _run_history(ctx, atoms, ops, fresh_budget):
                       + (" (meaning)" if sem else " (text/class)"),
                       {"operation": op, "fresh": list(got[:2]), "in_process_cold": list(exp[:2]), "semantic": bool(sem),
                        "group": "fresh/" + ("meaning" if sem else "text")},
-                      live={"semantic": bool(sem), "same_type": got[0] == exp[0], "lib_equal": bool(out.get("equal_to_given"))})
+                      live={"semantic": bool(sem), "same_type": got[0] == exp[0], "lib_equal": _text_equal(out, exp, op, envs)})
     if len(ctx.samples) < 4:
         ctx.sample({"alphabet": atoms[:6], "history_length": len(ops), "first_operations": ops[:4]})
 
